@@ -1274,6 +1274,9 @@ class Fn:
                     if not dest['proj']:
                         env = dict(env)
                         env[dest['local']] = val
+                        if ev is None and args and self.lname.get(dest['local']) and 'clone::Clone' in callee:
+                            # `let copy = place.clone();` makes no call event (clone is transparent): record WHEN the copy was taken
+                            events = events + [Ev('assign', bb, t['line'], held_of(guards), t.get('mac'), place=('var', self.lname[dest['local']]), value=val, copied=True)]
                         gk = guard_kind(self.lty.get(dest['local'], ''))
                         if gk and dest['local'] not in guards and not is_transparent(callee):
                             on = args[0] if args else None
